@@ -227,7 +227,7 @@ def _directions(rnd, r):
 
 def spline_samples(vd, rnd, tier):
     certs = []
-    reps = 1 if tier == "quick" else 8
+    reps = 1 if tier == "quick" else 5
     offsets = [(0.0, 0.0), (3.5, -2.25), (-1024.0, 512.0)]
     for rep in range(reps):
         for r in DISTANCES:
@@ -266,7 +266,7 @@ def spline_samples(vd, rnd, tier):
 
 def elastic_samples(vd, rnd, tier):
     certs = []
-    reps = 1 if tier == "quick" else 7
+    reps = 1 if tier == "quick" else 4
     nus = [0.5, -1.0, 1.0, 0.0, 0.25, -0.5, 0.3]
     k = 0
     for rep in range(reps):
